@@ -184,6 +184,6 @@ PROPS = {
         'text': 'Each header box and configuration record builder (progressive and fragmented) is proved against the field table of its defining specification for all arguments; deviations of the code are single named failing obligations '
                 '(known findings), with the remaining fields still pinned relative to the finding.',
         'note': 'oracle = the standards, not the golden file',
-        'kani': [], 'assumptions': [],
+        'kani': ['kb_moov_next_track_id'], 'assumptions': [],
     },
 }
